@@ -171,7 +171,7 @@ func runShell(shell string, args []string, cs []shellCase, dir string) (bad []in
 	detail = map[int]string{}
 	start := 0
 	for rounds := 0; start < len(cs); rounds++ {
-		if rounds > 40 {
+		if rounds > 300 {
 			return bad, detail, "too many shell restarts"
 		}
 		var sb bytes.Buffer
@@ -226,7 +226,59 @@ var ctrlTokens = []string{"\a", "\b", "\f", "\v", "\x1b", "\x01", "\x7f", "\x1c"
 var hexTokens = []string{"a", "f", "A", "F", "0", "9", "g", "G", "x", "u", "U", "aa", "1b"}
 var plainTokens = []string{"a", "foo", "B", "z9", "_", "-x", "a.b", "/usr", "x:y", "a,b", "%s", "+1"}
 
+// critical alphabet: every string of length <= 3 over it is in every run (all strategy interactions:
+// quote characters, the four characters escaped inside "..", a hex digit after \xHH, multi-byte, invalid byte)
+var critical = []string{"'", "\"", "\\", "`", "$", "a", "f", "\x1b", "\n", "é", "\xff", " ", "\u0080"}
+
+func criticalStrings() []string {
+	var out []string
+	for _, a := range critical {
+		out = append(out, a)
+		for _, b := range critical {
+			out = append(out, a+b)
+			for _, c := range critical {
+				out = append(out, a+b+c)
+			}
+		}
+	}
+	return out
+}
+
+// profile generators: strings that land in one given strategy
+func genProfile(r *rand.Rand, prof int) string {
+	var sb strings.Builder
+	n := 2 + r.IntN(7)
+	switch prof {
+	case 0: // ".." strategy: a single quote, no non-printables, many characters that need a backslash
+		pos := r.IntN(n)
+		for i := 0; i < n; i++ {
+			if i == pos {
+				sb.WriteString("'")
+			}
+			sb.WriteString(hx.Pick(r, []string{"\"", "\\", "`", "$", "$(", "${", "a", "b", " ", "é", "€", "😀", "'", "!", "*", "\\n", "x"}))
+		}
+	case 1: // $'..' strategy: some non-printable, then hex digits / quotes / backslashes / runes of every width
+		pos := r.IntN(n)
+		for i := 0; i < n; i++ {
+			if i == pos {
+				sb.WriteString(hx.Pick(r, append(append([]string{}, ctrlTokens...), invalidTokens...)))
+			}
+			sb.WriteString(hx.Pick(r, []string{"a", "f", "0", "9", "A", "g", "'", "\\", "\"", "$", "`", "é", "\u0080", "\u00ad", "\ufffd", "\ufffe",
+				"\U00010000", "\U000e0001", "\U0010ffff", "😀", "\xff", "\xc3", "\x01", "\x7f", "\n", " ", "x41", "u0041"}))
+		}
+	default: // '..' strategy / unquoted: printable, no single quote
+		for i := 0; i < n; i++ {
+			sb.WriteString(hx.Pick(r, append(append([]string{"a", "b", "é", "€", "\ufffd", "😀"}, metaTokens[:36]...), keywordTokens...)))
+		}
+		return strings.ReplaceAll(sb.String(), "'", "")
+	}
+	return sb.String()
+}
+
 func genString(r *rand.Rand) string {
+	if p := r.IntN(8); p < 3 {
+		return genProfile(r, p)
+	}
 	var sb strings.Builder
 	n := 1 + r.IntN(6)
 	if r.IntN(10) == 0 {
@@ -578,6 +630,8 @@ func main() {
 				}
 			}
 		}
+		strs = append(strs, criticalStrings()...)
+		strs = append(strs, keywordTokens...)
 		r := hx.Rand(o.Seed, 13)
 		for i := 0; i < o.N; i++ {
 			strs = append(strs, genString(r))
